@@ -1,7 +1,7 @@
 #!/bin/sh
 # usage: runmut.sh <seeded-dir-name> <property> : apply the seeded change to /repo, run the quick check, undo it
 d=/verif/seeded/$1
+if [ -n "$(git -C /repo status --porcelain)" ]; then echo "refusing: /repo has uncommitted changes"; exit 3; fi
 git -C /repo apply $d/patch.diff || exit 3
 /verif/check $2 quick 2>&1 | grep -v "^KNOWN-FINDING" | cut -c1-260
-echo "exit=$?"
 git -C /repo checkout -- .
